@@ -307,11 +307,11 @@ func TestC17(t *testing.T) {
 			"attestFlow": func(rt *rapid.T) {
 				f := drawFile(rt)
 				p := drawProv(rt)
-				res := w.f.Exec(storagetypes.NewMsgRequestAttestationForm(p.Bech, f.Merkle, f.Owner, f.Start))
+				res := w.f.Exec(newMsgRequestAttestationForm(p.Bech, f.Merkle, f.Owner, f.Start))
 				w.logf("request attestation by %s for %s -> %s", short(p.Bech), f.id(), res)
 				for _, s := range w.provs {
 					if rapid.Bool().Draw(rt, "signs") {
-						w.f.Exec(storagetypes.NewMsgAttest(s.Bech, p.Bech, f.Merkle, f.Owner, f.Start))
+						w.f.Exec(newMsgAttest(s.Bech, p.Bech, f.Merkle, f.Owner, f.Start))
 					}
 				}
 			},
@@ -325,7 +325,7 @@ func TestC17(t *testing.T) {
 				fm := forms[rapid.IntRange(0, len(forms)-1).Draw(rt, "form")]
 				for _, s := range w.provs {
 					if rapid.IntRange(0, 2).Draw(rt, "signs") > 0 {
-						r := w.f.Exec(storagetypes.NewMsgAttest(s.Bech, fm.Prover, fm.Merkle, fm.Owner, fm.Start))
+						r := w.f.Exec(newMsgAttest(s.Bech, fm.Prover, fm.Merkle, fm.Owner, fm.Start))
 						w.logf("late attestation by %s about %s -> %s", short(s.Bech), short(fm.Prover), r)
 					}
 				}
@@ -334,22 +334,22 @@ func TestC17(t *testing.T) {
 			"requestOnly": func(rt *rapid.T) { // a form is opened and (for now) signed by at most one provider
 				f := drawFile(rt)
 				p := drawProv(rt)
-				res := w.f.Exec(storagetypes.NewMsgRequestAttestationForm(p.Bech, f.Merkle, f.Owner, f.Start))
+				res := w.f.Exec(newMsgRequestAttestationForm(p.Bech, f.Merkle, f.Owner, f.Start))
 				w.logf("request attestation by %s for %s -> %s (signatures come later)", short(p.Bech), f.id(), res)
 				if rapid.Bool().Draw(rt, "oneSignature") {
 					s := drawProv(rt)
-					w.f.Exec(storagetypes.NewMsgAttest(s.Bech, p.Bech, f.Merkle, f.Owner, f.Start))
+					w.f.Exec(newMsgAttest(s.Bech, p.Bech, f.Merkle, f.Owner, f.Start))
 				}
 			},
 			"reportFlow": func(rt *rapid.T) {
 				f := drawFile(rt)
 				p := drawProv(rt)
 				before := multi()
-				res := w.f.Exec(storagetypes.NewMsgRequestReportForm(drawProv(rt).Bech, p.Bech, f.Merkle, f.Owner, f.Start))
+				res := w.f.Exec(newMsgRequestReportForm(drawProv(rt).Bech, p.Bech, f.Merkle, f.Owner, f.Start))
 				w.logf("request report about %s for %s -> %s", short(p.Bech), f.id(), res)
 				for _, s := range w.provs {
 					if rapid.IntRange(0, 3).Draw(rt, "signs") > 0 {
-						r := w.f.Exec(storagetypes.NewMsgReport(s.Bech, p.Bech, f.Merkle, f.Owner, f.Start))
+						r := w.f.Exec(newMsgReport(s.Bech, p.Bech, f.Merkle, f.Owner, f.Start))
 						w.logf("report by %s about %s -> %s", short(s.Bech), short(p.Bech), r)
 					}
 				}
@@ -358,7 +358,7 @@ func TestC17(t *testing.T) {
 			},
 			"shutdownReinit": func(rt *rapid.T) {
 				p := drawProv(rt)
-				r := w.f.Exec(storagetypes.NewMsgShutdownProvider(p.Bech))
+				r := w.f.Exec(newMsgShutdownProvider(p.Bech))
 				w.logf("shutdown %s -> %s", short(p.Bech), r)
 				if rapid.Bool().Draw(rt, "reinit") {
 					w.initProvider(p, "https://again.dom"+fmt.Sprint(p.Index)+".org")
